@@ -822,6 +822,52 @@ func genUnblock(c *hx.Ctx) []*scriptScn {
 	return out
 }
 
+// A bare transport end sends a frame header whose length field is above anything the multiplexer writes —
+// maxPayloadSize+1, 2^31-1, 2^31, 2^32-2, 2^32-1 — for an open and for an unopened id, optionally after a good
+// frame and followed by a few bytes, then nothing, then closes.  The reader allocates what the header says (the
+// memory is never touched) and waits; when the trunk ends it fails stop: no panic, nothing delivered for the bogus
+// frame, every Read ends with an error or end-of-file.  Each scenario runs in a child process of its own, one after
+// the other (a 4 GiB allocation per process at most).
+func genHuge(c *hx.Ctx, maxp int) []*scriptScn {
+	var out []*scriptScn
+	lens := []uint32{uint32(maxp) + 1, 0x7fffffff, 0x80000000, 0xfffffffe, 0xffffffff}
+	k := 0
+	for _, ln := range lens {
+		for _, id := range []uint32{1, 4242} {
+			variants := 1
+			if !c.Quick() {
+				variants = 2
+			}
+			for v := 0; v < variants; v++ {
+				k++
+				transport := []string{"pipe", "unix"}[(k+v)%2]
+				b := newBuilder("muxfault_hugelen", transport, 256, nil, []uint32{1, 2})
+				b.s.Raw[0] = true
+				b.s.Note = fmt.Sprintf("header announcing %d bytes on id %d", ln, id)
+				var buf []byte
+				if k%2 == 0 {
+					buf = append(buf, frameBytes(1, []byte{7, 8, 9})...) // a good frame first: it must arrive
+				}
+				hdr := make([]byte, 8)
+				binary.BigEndian.PutUint32(hdr, id)
+				binary.BigEndian.PutUint32(hdr[4:], ln)
+				buf = append(buf, hdr...)
+				for j := 0; j < k%4; j++ {
+					buf = append(buf, byte(0xa0+j)) // 0..3 bytes of the announced payload
+				}
+				b.add(act{Op: "raw", Side: 0, Hex: hex.EncodeToString(buf)})
+				if k%2 == 0 {
+					b.readOrBg(1, 1)
+				}
+				b.add(act{Op: "pause", Side: 0, N: 20}) // the reader has the header and waits for the payload
+				b.add(act{Op: "trunkclose", Side: 0})
+				out = append(out, b.finish())
+			}
+		}
+	}
+	return out
+}
+
 // ---------------------------------------------------------------- listener wrapper
 
 func genListener(c *hx.Ctx) []*scriptScn {
@@ -924,6 +970,16 @@ func driveFault(c *hx.Ctx) error {
 		}
 		emitScript(c, i, s, res[i], shards[s.Stream])
 	}
+	// headers with a length above any bound: one child process per scenario, one after the other
+	hs := genHuge(c, maxPayload(c.Repo))
+	c.Count("muxfault_hugelen.scenarios", len(hs))
+	for i, h := range hs {
+		rr := runScenarios(c, fmt.Sprintf("huge_%d", i), []scenario{{S: h}}, 1)
+		if shards[h.Stream] == nil {
+			shards[h.Stream] = c.NewShard(h.Stream, faultImports, "script_case", "corr_script", "holds_script", scriptShardMax)
+		}
+		emitScript(c, len(all)+i, h, rr[0], shards[h.Stream])
+	}
 	// closing a connection while the peer sends on it, many cycles, each batch in its own child process
 	ks := genStress(c)
 	for i, rr := range runScenarios(c, "stress", ks, len(ks)) {
@@ -942,6 +998,7 @@ func driveFault(c *hx.Ctx) error {
 		"muxfault_deadline: SetDeadline / SetReadDeadline / SetWriteDeadline on one logical connection at either end, already expired or expiring during a 60 ms pause, before and between traffic on the OTHER connections in both directions, which has to arrive; a second deadline of another kind at the other end; orderly closes at the end (unix socketpair, which honours deadlines on the trunk, and the in-memory pipe); " +
 		"muxfault_unblock: Mux.Unblock once or twice at both ends before, between and after two-way traffic on two connections, on Muxes created without WithBlockedRead (never blocked) and on Muxes unblocked at set-up, and twice on a Mux that really was blocked with frames waiting: everything written has to arrive; " +
 		"muxfault_closestress: for 2 s (thorough 8 s) per transport and mode, cycles of Open (or Listen+Accept) at one end, a burst of 48 frames from the other end on that id, and conn.Close (or Listener.Close) somewhere inside the burst, on at least 4 processors, in child processes: a panic of the multiplexer is an observation (exit status and stderr of the child); afterwards a fresh connection must still deliver; " +
+		"muxfault_hugelen: a bare transport end sends a header whose length field is maxPayloadSize+1, 2^31-1, 2^31, 2^32-2 or 2^32-1, for an open and an unopened id, optionally after a good frame and followed by 0-3 bytes, then closes; one child process per scenario, sequentially; no panic, nothing delivered for the bogus frame, Reads end with an error or end-of-file; " +
 		"muxfault_listener: every sequence of Accept/Close up to length 4 (thorough 7) on the listener wrapper. " +
 		"In three of five cut scenarios the failing trunk.Write returns a net.Error (Timeout or Temporary) and, when it was partial, the trunk takes bytes again afterwards (an expired write deadline, the peer drains again): the Writes that follow on other ids must fail all the same, a partial write is fatal whatever the error's type. " +
 		"A cut fails the outgoing direction of one end after an exact number of bytes (the failing trunk.Write returns the n bytes that still went out); after every fault the script waits until each Mux that has to close itself has closed its trunk, so that later calls do not race with its reader. Every call runs under a 20 s bound (1 s for the rest of a scenario once a call has hung; a hung scenario is run again alone before it is reported); a script ends with Close at both ends, a drain of every connection (Reads until 64 consecutive errors) and one more Write. Non-trivial: a fault was injected and at least one call was made after it. Compared in Coq: every call's result class and payload against the model replayed on the same script (select choices taken from the observation), the recorded trunk bytes, and the property's predicate on the observation."
